@@ -423,6 +423,23 @@ def native_wf():
         want = np.asarray(jax.numpy.array([a_, b_]).astype(float), dtype=np.float64)
         if ob.tolist() != want.tolist():
             return [f"1-D generator on [{a_}, {b_}]: the stored border is {ob.tolist()}, not the pair of end points {want.tolist()}"]
+    # 2-D border facets under JAX's default 32-bit types, boxes whose bounds are not binary fractions: the pinned coordinate of
+    # a facet is exactly the (rounded) bound — "min + (max - min)" is not
+    ctx = getattr(jax, "enable_x64", None)
+    if ctx is not None:
+        try:
+            with ctx(False):
+                for (mn, mx) in (((0.1, 0.3), (1.8, 2.9)), ((-1.4, 2.2), (1.8, 3.3)), ((-2.3, 0.7), (-0.1, 1.1))):
+                    g = CubicMeshPDEStatio(key=jax.random.PRNGKey(0), n=8, nb=8, omega_batch_size=2, omega_border_batch_size=2, dim=2,
+                                           min_pts=mn, max_pts=mx)
+                    ob = np.asarray(g.omega_border)
+                    for (cc, ff, bound) in [(0, 0, mn[0]), (0, 1, mx[0]), (1, 2, mn[1]), (1, 3, mx[1])]:
+                        want = np.float32(bound)
+                        if not np.all(ob[:, cc, ff] == want):
+                            return [f"32-bit types, box {mn}-{mx}: facet {ff} stores coordinate {cc} = {float(ob[0, cc, ff])!r}, the bound is {float(want)!r}"
+                                    + (" (outside the closed box)" if (ob[:, cc, ff] > want).any() or (ob[:, cc, ff] < np.float32(mn[cc])).any() else "")]
+        except Exception:
+            pass
     # grid sampling stores exactly the requested number of points (or refuses the request)
     for n_req in (9, 10, 12, 16, 20):
         for dim in (1, 2):
